@@ -59,10 +59,47 @@ def mirror_rule(run, rid, funcs, pairs, text):
                     if mirror.swapped(ts[i], pairs) == ts[j] and ts[i] != ts[j] and mirror.swapped(vs[i], pairs) != vs[j]:
                         bad.append((s, s, 0.0, [('parallel', '%s = %s' % (' '.join(ts[j]), ' '.join(mirror.swapped(vs[i], pairs))),
                                                  '%s = %s' % (' '.join(ts[j]), ' '.join(vs[j])))]))
+        # a value that both sides of an exact mirror pair are transformed with must not be computed from one side only
+        for b in mirror.blocks_of(f.node):
+            tk = [[mirror._norm(t) for t in mirror.tokens(s)] for s in b]
+            for i in range(len(b)):
+                sw = mirror.swapped(tk[i], pairs)
+                if sw == tk[i]:
+                    continue
+                for j in range(i + 1, len(b)):
+                    if tk[j] != sw:
+                        continue
+                    for nm in sorted(n0 for n0 in names_in(b[i]) if '.' not in n0 and not mirror._has_role(n0, pairs)):
+                        defs = [s for s in ast.walk(f.node) if isinstance(s, ast.Assign) and any(
+                            isinstance(x, ast.Name) and x.id == nm and isinstance(x.ctx, ast.Store) for t in s.targets for x in ast.walk(t))]
+                        if not defs:
+                            continue
+                        clo = dep_closure(f.node, {nm}) - {nm}
+                        sides = set()
+                        for c in clo:
+                            last = c.split('.')[-1]
+                            for a_, b_ in pairs:
+                                import re as _re
+                                if _re.search(a_, last):
+                                    sides.add('first')
+                                if _re.search(b_, last):
+                                    sides.add('second')
+                        if len(sides) != 1:
+                            continue
+                        tr = triage.BALANCE.get((f.short, nm))
+                        if tr:
+                            run.note(rid, 'one-sided by design in %s: %s: %s' % (f.short, nm, tr), f, b[i])
+                            continue
+                        bad.append((b[i], b[i], 0.0, [('balance', nm, sorted(sides)[0])]))
         if not bad:
             run.ob(rid, '%s::%s' % (f.rel, f.short), True,
                    'every near-mirror statement pair is an exact mirror under the role swap (%d statements compared)' % nb, fn=f)
         for s1, s2, r, d in bad:
+            if s1 is s2 and d[0][0] == 'balance':
+                run.ob(rid, '%s::%s::%s::%s' % (f.rel, f.short, head(s1)[:50], d[0][1]), False,
+                       'line %d: both sides are transformed with `%s`, which is computed from the %s side only: the two sides are not '
+                       'treated alike when they differ in what it was computed from' % (s1.lineno, d[0][1], d[0][2]), fn=f, node=s1)
+                continue
             if s1 is s2 and d[0][0] == 'parallel':
                 run.ob(rid, '%s::%s::%s' % (f.rel, f.short, head(s1)[:70]), False,
                        'line %d assigns the two sides in parallel but not as mirror images: `%s` where the role swap gives `%s`'
